@@ -1303,7 +1303,7 @@ func c24LawYAML(c c24LawCase) string {
 		}
 	}
 	if c.Comp != "" {
-		fmt.Fprintf(&b, "components:\n  \"%s\":\n    type: standard\n", c.Comp)
+		fmt.Fprintf(&b, "components:\n  \"%s\":\n    type: test\n", c.Comp)
 		if len(c.CompHooks) > 0 {
 			b.WriteString("    hooks:\n")
 			for _, h := range c.CompHooks {
@@ -1429,6 +1429,7 @@ func c24RunLaw(d *c24Driver, c c24LawCase) (verifkit.Outcome, error) {
 				g.what, g.req.Tag, len(g.req.Tag), g.req.Inst, c24ptr(g.req.SC), what)
 		}
 	}
+	o.Labels = c24Uniq(o.Labels)
 	o.NonTrivial = len(tags) > 0
 	o.Desc = fmt.Sprintf("snap %q: %d generated tags accepted", instName, len(tags))
 	if len(tags) > 0 {
